@@ -28,7 +28,22 @@ claim("C03", "dominating-guard facts with linear forms, struct-literal field pro
       STDNOTE,
       "DESIGN.md §3 E4, §4 C03")
 
+claim("C12", "NonEmpty guard facts + taint of the raw directory argument + dominating suffix guard + embedded asset-tree table + loader argument agreement + freshness of DefaultClassifier by effect analysis",
+      "Decides for all directory trees and spellings: segment accesses are guarded; the raw dir argument reaches only path-aware functions (never string arithmetic); a path is collected exactly under HasSuffix(path, \"txt\"); every embedded asset is category/name/variant + txt; both loaders pass components 0,1,2 to AddContent in order; DefaultClassifier returns a classifier allocated by the call. Equality of Match results of the two classifiers additionally rests on C04.",
+      STDNOTE + "The asset tree is read through go/packages' embed expansion of the current tree.",
+      "DESIGN.md §4 C12")
+
+claim("C13", "who-may-call/constant-argument rule for regexp.MustCompile over the whole module, quoting and error-use rule at the registration sites, dominating `> 0` guard on queued matches, inclusive pre-filter comparison",
+      "Decides for all known values: registration cannot panic in the regexp compiler (MustCompile only on constants; registered values are QuoteMeta'd and the Compile error is used); every queued Match has confidence 1.0 or a dominating > 0 test; the length pre-filter admits ratio == threshold. Exact Offset/Extent of the occurrence shortcut and the <= 1 bound are not decided (a reproduced defect of the shortcut for one-token values is described in DESIGN.md as outside what is decided).",
+      STDNOTE,
+      "DESIGN.md §4 C13")
+
+claim("C16", "dominating-call fact on every append to the result + shape of the threshold predicate + case-insensitivity table rule for the common-words gate",
+      "Decides for all inputs that License.MultipleMatch never returns a match that did not pass WithinConfidenceThreshold on its own confidence, that the predicate is conf > T or a tiny-epsilon equality, and that the common-license-words gate cannot reject re-cased text where it sees raw input. That every corpus text is recognised is behavioural and not decided.",
+      STDNOTE,
+      "DESIGN.md §4 C16")
+
 _pending = "check not built yet in this round (planned: see DESIGN.md §4); not claimed until its rules run against /repo"
-for _id in ["C01","C02","C05","C06","C08","C11","C12","C13","C15","C16","C17","C18","C19","C20"]:
+for _id in ["C01","C02","C05","C06","C08","C11","C15","C17","C18","C19","C20"]:
     na(_id, _pending)
 na("C07", "quantifies over the numeric behaviour of the sliding-window density, offset clamping and error-margin fusion at document edges; no clause of it is visible in the shape of the code and any proxy would be a frozen fragment (DESIGN.md §4 C07)")
